@@ -176,4 +176,13 @@ def check(ctx, rep):
         key = 'value|%s->%s' % (argt.rsplit('::', 1)[-1], rett.rsplit('::', 1)[-1])
         rep.expect('R17.c', not calls and variants == want and payload_moved and none_ok, key,
                    'None <-> None, payload moved, no call', 'conversion %s -> %s is no longer a pure re-tagging (calls %s, builds %s)' % (argt, rett, calls, variants))
+    # R17.d: "exactly one operation" also rests on the command primitives underneath: a request / notification made through the command API
+    # puts its effect on the effect channel exactly once (shared with C01 R01.f)
+    from rules.props import prims as _prims
+    _core = ctx.crate('default', 'crux_core')
+    rep.rule('R17.d', 'a command-API request, stream or notification puts its effect on the effect channel exactly once (at the call / at the first poll)', floor=10)
+    if _core is None:
+        rep.missing('R17.d', 'crux_core facts')
+    else:
+        _prims.check_request_typestate(rep, 'R17.d', _core)
     rep.assume('a response of another kind than the operation\'s is a shell protocol error (unwrap_K panics, documented)')
